@@ -54,6 +54,8 @@ class RuleResult(object):
         self.instances.append((inst, "HOLDS", detail))
 
     def violated(self, inst, finding):
+        if any(f.key == finding.key for f in self.findings):
+            return
         self.instances.append((inst, "VIOLATED", finding.message))
         self.findings.append(finding)
 
